@@ -32,6 +32,9 @@ enum Op {
     Signal(usize, usize, bool),
     /// notify a condition nobody waits on
     Lonely(bool),
+    /// block (parked, on a harness condition variable) until at least k threads are queued
+    /// in condition waits
+    AwaitQueued(usize),
     /// notify (all = true) the condition object of flag c WITHOUT setting the flag: legal at
     /// any time, waiters re-check their flag and wait again
     Poke(usize, bool),
@@ -88,6 +91,8 @@ struct World {
     inside: Vec<AtomicBool>,
     flags: Vec<AtomicBool>,
     waiting_now: AtomicUsize,
+    queued_mtx: shuttle::sync::Mutex<()>,
+    queued_cv: shuttle::sync::Condvar,
     spawned: Vec<StdMutex<Option<Arc<DoraThread>>>>,
     finished: Vec<AtomicBool>,
     scenario: WaitqScenario,
@@ -186,6 +191,10 @@ fn cond_wait(w: &World, c: usize, m: usize, tid: i64) {
     native1(dora_runtime::verif::condition_enqueue as *const (), raw(&w.slots[c]));
     unlock_op(w, m, tid);
     w.waiting_now.fetch_add(1, Ordering::Relaxed);
+    {
+        let _g = w.queued_mtx.lock().unwrap();
+        w.queued_cv.notify_all();
+    }
     native1(dora_runtime::verif::condition_block_after_enqueue as *const (), raw(&w.slots[c]));
     w.waiting_now.fetch_sub(1, Ordering::Relaxed);
     lock_op(w, m, tid);
@@ -300,6 +309,14 @@ fn run_ops(w: &Arc<World>, me: usize) {
                     notify_one(w, nm + w.scenario.cond_obj(c));
                 }
             }
+            Op::AwaitQueued(k) => {
+                parked_scope(|| {
+                    let mut g = w.queued_mtx.lock().unwrap();
+                    while w.waiting_now.load(Ordering::Relaxed) < k {
+                        g = w.queued_cv.wait(g).unwrap();
+                    }
+                });
+            }
             Op::Lonely(all) => {
                 let lonely = nm + w.scenario.ncond;
                 if all {
@@ -365,6 +382,53 @@ impl Scenario for WaitqScenario {
     const HARNESS: &'static str = "waitq";
 
     fn generate(rng: &mut Prng) -> Self {
+        if rng.chance(1, 12) {
+            // many conditions queued at once, some woken, more queued, then notifications for
+            // conditions that have no waiter any more - and no collection in between: entries
+            // are deleted from and inserted into the wait table without a rehash
+            let n1 = rng.range(10, 12) as usize;
+            let nmutex = rng.range(1, 2) as usize;
+            let mut threads: Vec<Vec<Op>> = vec![Vec::new(); 1];
+            let mut next_c = 0usize;
+            let mut live: Vec<(usize, usize)> = Vec::new(); // (flag, mutex)
+            let mut done: Vec<usize> = Vec::new();
+            let spawn_waiter = |threads: &mut Vec<Vec<Op>>, live: &mut Vec<(usize, usize)>, next_c: &mut usize, rng: &mut Prng| {
+                let t = threads.len();
+                let m = rng.below(nmutex as u64) as usize;
+                threads.push(vec![Op::Wait(*next_c, m)]);
+                threads[0].push(Op::Spawn(t));
+                live.push((*next_c, m));
+                *next_c += 1;
+            };
+            for _ in 0..n1 {
+                spawn_waiter(&mut threads, &mut live, &mut next_c, rng);
+            }
+            threads[0].push(Op::AwaitQueued(live.len()));
+            for _round in 0..rng.range(1, 3) {
+                // wake some
+                let k = rng.range(2, 6) as usize;
+                for _ in 0..k.min(live.len()) {
+                    let i = rng.below(live.len() as u64) as usize;
+                    let (c, m) = live.remove(i);
+                    threads[0].push(Op::Signal(c, m, rng.chance(1, 3)));
+                    done.push(c);
+                }
+                // queue as many new ones as fit below the growth threshold of the table
+                while live.len() < n1 {
+                    spawn_waiter(&mut threads, &mut live, &mut next_c, rng);
+                }
+                threads[0].push(Op::AwaitQueued(live.len()));
+                // notifications for conditions whose waiter is gone
+                for _ in 0..rng.range(1, 3) {
+                    let c = done[rng.below(done.len() as u64) as usize];
+                    threads[0].push(Op::Poke(c, rng.chance(1, 4)));
+                }
+            }
+            for (c, m) in live.drain(..) {
+                threads[0].push(Op::Signal(c, m, rng.chance(1, 2)));
+            }
+            return WaitqScenario { nmutex, ncond: next_c, threads, cond_map: Vec::new() };
+        }
         if rng.chance(1, 8) {
             // "wide" family: 7-9 objects keyed in the wait table at once (the table grows past
             // its minimum capacity, so bucket positions depend on more address bits), a moving
@@ -590,6 +654,8 @@ impl Scenario for WaitqScenario {
             inside: (0..self.nmutex).map(|_| AtomicBool::new(false)).collect(),
             flags: (0..self.ncond.max(1)).map(|_| AtomicBool::new(false)).collect(),
             waiting_now: AtomicUsize::new(0),
+            queued_mtx: shuttle::sync::Mutex::new(()),
+            queued_cv: shuttle::sync::Condvar::new(),
             spawned: (0..n).map(|_| StdMutex::new(None)).collect(),
             finished: (0..n).map(|_| AtomicBool::new(false)).collect(),
             scenario: self.clone(),
